@@ -260,19 +260,6 @@ pub fn run(ctx: &Ctx) -> CheckResult {
     for k in ALL_KINDS {
         cfgs.extend(generic_cfgs(k, &[1, 2, 3, 4], &[1, 2, 3]));
     }
-    // periods at and beyond 2^32 for the indicators that allocate no window of that size
-    {
-        use crate::subjects::Kind;
-        for &n in &[(1usize << 32) + 2, usize::MAX] {
-            cfgs.push(Cfg::p1(Kind::Ema, n));
-            cfgs.push(Cfg::p1(Kind::Atr, n));
-            cfgs.push(Cfg::p1(Kind::Rsi, n));
-            cfgs.push(Cfg::pm(Kind::Kc, n, 2.0));
-            cfgs.push(Cfg::p3(Kind::Macd, n, 5, n));
-            cfgs.push(Cfg::p3(Kind::Ppo, 3, n, 2));
-            cfgs.push(Cfg::p2(Kind::SlowStoch, 3, n));
-        }
-    }
     // heavier first
     cfgs.sort_by_key(|c| std::cmp::Reverse(if c.max_period() > 4096 { 4 } else { c.max_period() }));
     let outs = par_run(ctx, &cfgs, |_, cfg| check_cfg(ctx, cfg, dp));
@@ -405,6 +392,25 @@ pub fn run(ctx: &Ctx) -> CheckResult {
         res.extra.insert("lifecycle_graph".into(), json!(grows));
         res.extra.insert("lifecycle_graph_fixpoints".into(), json!(fixpoints));
         res.absorb(o);
+    }
+    // LAST (a change that turns such a period into a window size would exhaust memory: every other stage
+    // has reported by then): periods at and beyond 2^32 for the indicators that allocate no window of that size
+    if !res.out.failed() {
+        use crate::subjects::Kind;
+        let mut hc = vec![];
+        for &n in &[(1usize << 32) + 2, usize::MAX] {
+            hc.push(Cfg::p1(Kind::Ema, n));
+            hc.push(Cfg::p1(Kind::Atr, n));
+            hc.push(Cfg::p1(Kind::Rsi, n));
+            hc.push(Cfg::pm(Kind::Kc, n, 2.0));
+            hc.push(Cfg::p3(Kind::Macd, n, 5, n));
+            hc.push(Cfg::p3(Kind::Ppo, 3, n, 2));
+            hc.push(Cfg::p2(Kind::SlowStoch, 3, n));
+        }
+        let outs = par_run(ctx, &hc, |_, cfg| check_cfg(ctx, cfg, dp));
+        for o in outs {
+            res.absorb(o.out);
+        }
     }
     res.extra.insert("post_reset_states".into(), json!(rows));
     res.extra.insert("max_distinct_post_reset_states".into(), json!(max_keys));
